@@ -138,7 +138,11 @@ func cmdUnit(args []string) {
 				}
 			} else {
 				bad++
-				fmt.Printf("  FAIL %-60s %s [%s] %s %q\n", o.Name, o.Status, o.Solver, o.Pos, o.Src)
+				status := o.Status
+				if o.Candidate {
+					status = "unknown+candidate-model"
+				}
+				fmt.Printf("  FAIL %-60s %s [%s] %s %q\n", o.Name, status, o.Solver, o.Pos, o.Src)
 				if o.Status == "failed" {
 					var ks []string
 					for k := range o.Model {
